@@ -125,6 +125,11 @@ func hostileMIDs(c *Ctx, n int) []string {
 			}
 		}
 	}
+	// a well-formed MID (12 upper-case letters / digits) in FRONT of the climb: a "looks regular" shortcut that is not
+	// anchored at the end lets the rest through
+	for _, pre := range []string{"ABCDEFGHIJKL", "GOODIN000001", "0123456789AB", "abcdefghijkl", "ABCDEFGHIJKLM"} {
+		mids = append(mids, pre+"/../../../x", pre+"/../../../outside/x", pre+"/../../mbox-1/in/x", pre+"\\..\\x", pre+"/x")
+	}
 	// multi-byte characters in front of the climb: a check that walks runes but indexes bytes (or the reverse), or
 	// that measures in runes, stops short of the separators
 	for _, ch := range []string{"é", "Å", "メ", "𝄞"} {
@@ -195,6 +200,7 @@ func init() {
 		pre := []mOp{{K: 'P'}, {K: 'A', Msgs: []mMsg{goodOut}}, {K: 'I', Msgs: []mMsg{goodIn}}}
 		n := 0
 		outsideTouched := 0
+		freshCount := 0
 		runOne := func(mid string, k byte, override *mOp, hostile bool) {
 			n++
 			sb := filepath.Join(base, fmt.Sprintf("s%d", n))
@@ -243,6 +249,15 @@ func init() {
 			if override != nil {
 				op = *override
 				op.fixPaths(sb)
+			}
+			if freshCount++; k == 'I' && override == nil && freshCount%3 == 0 {
+				// the operation on a handler that wraps the existing mailbox but has NOT been Prepare()d (a tool that
+				// stores one message and exits), with the process's working directory somewhere else in the sandbox:
+				// whatever a handler derives at Prepare time must not be needed to stay inside the mailbox
+				if wd, err := os.Getwd(); err == nil && os.Chdir(filepath.Join(sb, "outside")) == nil {
+					defer os.Chdir(wd)
+					rb = newRealBox(root, false)
+				}
 			}
 			before := snapshot(sb)
 			var res string
